@@ -272,8 +272,15 @@ func genRangesFrom(t *rapid.T, pools []PoolT, k int) [][]string {
 	return out
 }
 
-func genOp(t *rapid.T, kinds []string, hp *HistoryParams, depth int) Op {
-	k := rapid.SampledFrom(kinds).Draw(t, "op")
+// genOp draws one operation. flat: draw the kind with every entry of the weighted list equally likely; otherwise with rapid's
+// own (small-index heavy) distribution, which makes the first kinds of the list - pod creation and re-creation - dominate.
+func genOp(t *rapid.T, kinds []string, hp *HistoryParams, depth int, flat bool) Op {
+	var k string
+	if flat {
+		k = kinds[uniformInt(t, len(kinds), "opFlat")]
+	} else {
+		k = rapid.SampledFrom(kinds).Draw(t, "op")
+	}
 	op := Op{K: k}
 	switch k {
 	case "resync", "syncips", "deliver", "drop", "restart", "quiesce", "fipevent":
@@ -287,7 +294,7 @@ func genOp(t *rapid.T, kinds []string, hp *HistoryParams, depth int) Op {
 			sub = append(sub, "synclister")
 		}
 		for i := 0; i < n; i++ {
-			op.Sub = append(op.Sub, genOp(t, sub, hp, depth+1))
+			op.Sub = append(op.Sub, genOp(t, sub, hp, depth+1, flat))
 		}
 		op.Sched = GenSchedule(t)
 	default:
@@ -421,9 +428,12 @@ func GenHistory(t *rapid.T, hp *HistoryParams) Case {
 	if phrases == 0 {
 		phrases = 35
 	}
+	// half of the histories draw operation kinds and phrase kinds flat (the weights mean what they say: reservations, reloads,
+	// restarts and the later phrases appear as often as listed), half with rapid's small-value bias (creation-heavy histories)
+	flat := rapid.Bool().Draw(t, "flatKinds")
 	for len(c.Ops) < n {
 		if rapid.IntRange(0, 99).Draw(t, "phrase") >= phrases {
-			c.Ops = append(c.Ops, genOp(t, kinds, hp, 0))
+			c.Ops = append(c.Ops, genOp(t, kinds, hp, 0, flat))
 			continue
 		}
 		maxKind := 8
@@ -431,7 +441,12 @@ func GenHistory(t *rapid.T, hp *HistoryParams) Case {
 			maxKind = 18
 		}
 		sched := func() []int { return GenSchedule(t) }
-		pk := rapid.IntRange(0, maxKind).Draw(t, "phraseKind")
+		var pk int
+		if flat {
+			pk = uniformInt(t, maxKind+1, "phraseKindFlat")
+		} else {
+			pk = rapid.IntRange(0, maxKind).Draw(t, "phraseKind")
+		}
 		if !hp.Episodes && pk == 8 {
 			pk = 16
 		}
